@@ -79,6 +79,19 @@ def oracle(sb, old, new, hist_before, R, fmap=None):
             continue
         if v[2] not in legit:
             probs.append(f"file {p} has content that is neither its complete old nor its complete new content ({v[3]} bytes)")
+        elif fmap:
+            # ... and it is THIS file's old or new content, not some other file's
+            owners = []
+            for op, ov in old.items():
+                if ov[0] != "f":
+                    continue
+                oc = op.split("/")
+                nc = [fmap(c) for c in oc]
+                qc = p.split("/")
+                if len(qc) == len(oc) and all(c in (a, b) for c, a, b in zip(qc, oc, nc)):
+                    owners.append((op, "/".join(nc)))
+            if owners and not any(v[2] in {old[op][2], new.get(np, (None, None, None))[2]} for op, np in owners):
+                probs.append(f"file {p} holds another file's content ({v[3]} bytes): neither its own old nor its own new content")
     # (b) no user file lost: each old file's old or new content is still somewhere
     old_by_hash = {}
     for p, v in old.items():
